@@ -1241,9 +1241,12 @@ func (e *Env) callExpr(x *Expr) Val {
 		sel := map[string]string{"len": "slen", "cap": "scap"}[x.S]
 		switch u := v.Ty.Underlying().(type) {
 		case *types.Slice:
-			if !strings.Contains(v.T, "%%") {
-				// a slice value a contract measures is a Go slice value: 0 <= len <= cap (contract
-				// expressions read memory without the well-formedness facts loads in the code get)
+			if !strings.Contains(v.T, "%%") && strings.HasPrefix(v.T, "(select ") {
+				// a slice value read from memory that a contract measures is a Go slice value:
+				// 0 <= len <= cap (contract expressions read memory without the well-formedness
+				// facts loads in the code get). Only for memory reads: a slice *computed* on some path
+				// (s[2:]) is well-formed only where that path's bounds check passed, and an
+				// unconditional fact about it would silently constrain the other paths.
 				tr.assume("true", fmt.Sprintf("(wfslice %s)", v.T), "wf slice measured by a contract clause")
 			}
 			return Val{T: fmt.Sprintf("(%s %s)", sel, v.T), Ty: intT}
@@ -1368,6 +1371,16 @@ func (e *Env) callExpr(x *Expr) Val {
 		}
 		tr.smt.declareFun("is_b2s", []string{"Str", "Slice"}, "Bool")
 		return Val{T: fmt.Sprintf("(is_b2s %s %s)", a.T, b.T), Ty: boolT}
+	case "disjoint":
+		// disjoint(a, b): two slices do not share a backing array (they live in different allocations)
+		if len(x.A) != 2 {
+			e.fail("disjoint(a, b)")
+		}
+		a, b := e.eval(x.A[0]), e.eval(x.A[1])
+		if tr.smt.sortOf(a.Ty) != "Slice" || tr.smt.sortOf(b.Ty) != "Slice" {
+			e.fail("disjoint() needs two slices")
+		}
+		return Val{T: fmt.Sprintf("(not (= (rootloc (sbase %s)) (rootloc (sbase %s))))", a.T, b.T), Ty: boolT}
 	case "distinct":
 		// distinct(a, b): two reference-like values (pointers, maps, channels, possibly of different
 		// static types) are not the same object
